@@ -327,6 +327,72 @@ where
     }
 }
 
+/// one Builder::init over a borrowed interface; `fail` = index (from now) of the fallible operation that fails, or -1
+fn init_once<DI, M>(model: M, di: &mut DI, log: &Shared, h: &Hdr, fail: i64) -> (String, String)
+where
+    DI: Interface,
+    DI::Error: ErrTag,
+    M: Model,
+    M::ColorFormat: HColor + InterfacePixelFormat<DI::Word>,
+{
+    let mut delay = MockDelay(log.clone());
+    let o = Orientation { rotation: rot_of(h.rot), mirrored: h.mir };
+    let mut b = Builder::new(model, di)
+        .orientation(o)
+        .color_order(if h.bgr { ColorOrder::Bgr } else { ColorOrder::Rgb })
+        .invert_colors(if h.inv { ColorInversion::Inverted } else { ColorInversion::Normal })
+        .refresh_order(RefreshOrder::new(
+            if h.btt { VerticalRefreshOrder::BottomToTop } else { VerticalRefreshOrder::TopToBottom },
+            if h.rtl { HorizontalRefreshOrder::RightToLeft } else { HorizontalRefreshOrder::LeftToRight },
+        ));
+    if h.use_size {
+        b = b.display_size(h.w, h.h).display_offset(h.ox, h.oy);
+    }
+    {
+        let mut l = log.borrow_mut();
+        l.budget = h.budget;
+        l.budget_hit = false;
+        l.fail_at = if fail >= 0 { Some(l.ops + fail as usize) } else { None };
+    }
+    fn res_str<D, IE: ErrTag, PE>(r: Result<Result<D, InitError<IE, PE>>, Box<dyn std::any::Any + Send>>, budget_hit: bool) -> String {
+        match r {
+            _ if budget_hit => "RBudget".to_string(),
+            Err(_) => "RPanic".to_string(),
+            Ok(Err(InitError::Interface(ie))) => format!("RErr (EInitInterface {})", ie.tag()),
+            Ok(Err(InitError::ResetPin(_))) => "RErr EInitResetPin".to_string(),
+            Ok(Err(InitError::InvalidConfiguration(ce))) => format!("RErr (ECfg {})", cfg_err(&ce)),
+            Ok(Ok(_)) => "ROk".to_string(),
+        }
+    }
+    let res = if h.rst {
+        let b = b.reset_pin(MockPin(log.clone(), Role::Rst));
+        let r = catch_unwind(AssertUnwindSafe(|| b.init(&mut delay)));
+        let hit = log.borrow().budget_hit;
+        res_str(r, hit)
+    } else {
+        let r = catch_unwind(AssertUnwindSafe(|| b.init(&mut delay)));
+        let hit = log.borrow().budget_hit;
+        res_str(r, hit)
+    };
+    log.borrow_mut().fail_at = None;
+    let evs = take_events(log);
+    (res, fmt_events(&evs, h.l2))
+}
+
+/// scenario `reinit`: an initialisation that fails at its `init_fail`-th fallible operation, then a second one
+/// (same model and options, no fault) over the SAME interface object
+fn run_retry<DI, M>(m1: M, m2: M, mut di: DI, log: &Shared, h: &Hdr) -> String
+where
+    DI: Interface,
+    DI::Error: ErrTag,
+    M: Model,
+    M::ColorFormat: HColor + InterfacePixelFormat<DI::Word>,
+{
+    let (r1, e1) = init_once(m1, &mut di, log, h, h.init_fail);
+    let (r2, e2) = init_once(m2, &mut di, log, h, -1);
+    format!("C17RO ({}) {} ({}) {} ### ", r1, e1, r2, e2)
+}
+
 fn data_pin(log: &Shared, i: u8) -> MockPin {
     MockPin(log.clone(), Role::Data(i))
 }
@@ -337,6 +403,15 @@ fn data_pin(log: &Shared, i: u8) -> MockPin {
 /// length), 4 ParallelInterface<Generic8BitBus>, 5 ParallelInterface<Generic16BitBus>, 7 Rec8 with
 /// KIND = Parallel16Bit
 pub fn run(t: &mut Toks) -> String {
+    run_inner(t, false)
+}
+
+/// `reinit <same header as prog>`: see `run_retry`
+pub fn reinit(t: &mut Toks) -> String {
+    run_inner(t, true)
+}
+
+fn run_inner(t: &mut Toks, retry: bool) -> String {
     let model = t.n();
     let iface = t.n();
     let ifparam = t.n();
@@ -363,12 +438,12 @@ pub fn run(t: &mut Toks) -> String {
     macro_rules! go8 {
         ($t:ty, $v:expr) => {
             match iface {
-                0 => Some(run_with::<_, $t>($v, Rec8::<0>(log.clone()), &log, t, &h)),
-                1 => Some(run_with::<_, $t>($v, Rec8::<1>(log.clone()), &log, t, &h)),
-                7 => Some(run_with::<_, $t>($v, Rec8::<2>(log.clone()), &log, t, &h)),
+                0 => Some(if retry { run_retry::<_, $t>($v, $v, Rec8::<0>(log.clone()), &log, &h) } else { run_with::<_, $t>($v, Rec8::<0>(log.clone()), &log, t, &h) }),
+                1 => Some(if retry { run_retry::<_, $t>($v, $v, Rec8::<1>(log.clone()), &log, &h) } else { run_with::<_, $t>($v, Rec8::<1>(log.clone()), &log, t, &h) }),
+                7 => Some(if retry { run_retry::<_, $t>($v, $v, Rec8::<2>(log.clone()), &log, &h) } else { run_with::<_, $t>($v, Rec8::<2>(log.clone()), &log, t, &h) }),
                 3 => {
                     let di = SpiInterface::new(MockSpi(log.clone()), MockPin(log.clone(), Role::Dc), &mut buffer);
-                    Some(run_with::<_, $t>($v, di, &log, t, &h))
+                    Some(if retry { run_retry::<_, $t>($v, $v, di, &log, &h) } else { run_with::<_, $t>($v, di, &log, t, &h) })
                 }
                 4 => {
                     let bus = Generic8BitBus::new((
@@ -376,7 +451,7 @@ pub fn run(t: &mut Toks) -> String {
                         data_pin(&log, 4), data_pin(&log, 5), data_pin(&log, 6), data_pin(&log, 7),
                     ));
                     let di = ParallelInterface::new(bus, MockPin(log.clone(), Role::Dc), MockPin(log.clone(), Role::Wr));
-                    Some(run_with::<_, $t>($v, di, &log, t, &h))
+                    Some(if retry { run_retry::<_, $t>($v, $v, di, &log, &h) } else { run_with::<_, $t>($v, di, &log, t, &h) })
                 }
                 _ => None,
             }
@@ -385,7 +460,7 @@ pub fn run(t: &mut Toks) -> String {
     macro_rules! go16 {
         ($t:ty, $v:expr) => {
             match iface {
-                2 => Some(run_with::<_, $t>($v, Rec16::<2>(log.clone()), &log, t, &h)),
+                2 => Some(if retry { run_retry::<_, $t>($v, $v, Rec16::<2>(log.clone()), &log, &h) } else { run_with::<_, $t>($v, Rec16::<2>(log.clone()), &log, t, &h) }),
                 5 => {
                     let bus = Generic16BitBus::new((
                         data_pin(&log, 0), data_pin(&log, 1), data_pin(&log, 2), data_pin(&log, 3),
@@ -394,7 +469,7 @@ pub fn run(t: &mut Toks) -> String {
                         data_pin(&log, 12), data_pin(&log, 13), data_pin(&log, 14), data_pin(&log, 15),
                     ));
                     let di = ParallelInterface::new(bus, MockPin(log.clone(), Role::Dc), MockPin(log.clone(), Role::Wr));
-                    Some(run_with::<_, $t>($v, di, &log, t, &h))
+                    Some(if retry { run_retry::<_, $t>($v, $v, di, &log, &h) } else { run_with::<_, $t>($v, di, &log, t, &h) })
                 }
                 _ => None,
             }
